@@ -541,7 +541,7 @@ fn projection_suite(run: &mut Run, deep: bool) {
         run.distinct(&(op.len(), round));
         run.spec_checked += 1;
         if points.len() != truth.len() {
-            run.fail("projection-count", "Lookup::projections on a complete flop lookup", &format!("{} points", truth.len()), &format!("{}", points.len()));
+            run.fail("projection-count", "the preflop layer end to end through Table (Layer::grow(Pref).save() on a synthetic flop lookup + metric in ./pgcopy; labels, stored centroids and metric read back and judged against independently computed class histograms); Lookup::projections on a complete flop lookup", &format!("{} points", truth.len()), &format!("{}", points.len()));
         }
         let mut misplaced = vec![];
         for (i, (p, t)) in points.iter().zip(truth.iter()).enumerate() {
@@ -561,6 +561,173 @@ fn projection_suite(run: &mut Run, deep: bool) {
         run.count("projections-preflop-from-full-flop-lookup");
     }
     run.notes.push("Lookup::projections exercised for preflop <- complete synthetic flop lookup (1,286,792 entries); flop <- turn would need a complete 13,960,050-entry turn lookup and is not exercised".into());
+}
+
+/// the whole preflop layer, end to end, through the public `Table` interface exactly as `Layer::learn()`
+/// runs it: a complete synthetic flop lookup and a flop metric in ./pgcopy, `Layer::grow(Pref).save()`
+/// (projections -> init -> lookup / decomp / metric), tables read back and judged independently:
+/// class i must be labelled with the bucket whose stored centroid is (nearest to = identical with) the
+/// histogram of class i, computed here from Observation::children + the same flop lookup.
+fn preflop_chain_suite(run: &mut Run) {
+    use robopoker::clustering::lookup::Lookup;
+    use robopoker::save::upload::Table;
+    const B: usize = 8;
+    let mix = |x: i64| -> u64 {
+        let mut x = x as u64;
+        x = (x ^ (x >> 30)).wrapping_mul(0xBF58476D1CE4E5B9);
+        x = (x ^ (x >> 27)).wrapping_mul(0x94D049BB133111EB);
+        x ^ (x >> 31)
+    };
+    let flop = |b: usize| Abstraction::from((Street::Flop, b));
+    let classes: Vec<Isomorphism> = IsomorphismIterator::from(Street::Pref).collect();
+    let n = classes.len();
+    // bucket 0 with probability p/n for the p-th preflop class: all 169 histograms differ
+    let mut map = BTreeMap::<Isomorphism, Abstraction>::new();
+    for (p, pref) in classes.iter().enumerate() {
+        for child in pref.0.children() {
+            let iso = Isomorphism::from(child);
+            map.entry(iso).or_insert_with(|| {
+                let h = mix(i64::from(iso));
+                flop(if h % (n as u64) < (p as u64) { 0 } else { 1 + ((h >> 24) % (B as u64 - 1)) as usize })
+            });
+        }
+    }
+    let truth: Vec<BTreeMap<Abstraction, usize>> = classes.iter().map(|pref| {
+        let mut c = BTreeMap::new();
+        for child in pref.0.children() { *c.entry(map[&Isomorphism::from(child)]).or_insert(0usize) += 1; }
+        c
+    }).collect();
+    let mut distinct = true;
+    for i in 0..n { for j in 0..i { if truth[i] == truth[j] { distinct = false; } } }
+    if !distinct { run.notes.push("preflop chain: two synthetic preflop histograms coincide; nearest centroid not unique".into()); }
+    let mut ground = BTreeMap::<Pair, f32>::new();
+    for a in 0..B { for b in 0..a { ground.insert(Pair::from((&flop(a), &flop(b))), (a - b) as f32); } }
+    let ground_metric = Metric::from(ground.clone());
+    // ---- run the real chain in ./pgcopy of the run directory
+    let _ = std::fs::remove_dir_all("pgcopy");
+    std::fs::create_dir_all("pgcopy").expect("pgcopy dir");
+    let done = catch(AssertUnwindSafe(|| {
+        Lookup::from(map).save();
+        Metric::from(ground).save(); // 28 pairs: filed under the river name
+        std::fs::rename("pgcopy/metric.river", "pgcopy/metric.flop").expect("rename metric");
+        Layer::grow(Street::Pref).save();
+    }));
+    run.evaluations += 1;
+    let mut op = format!("prefchain {n}");
+    for t in &truth {
+        let _ = write!(op, " {} {}", t.len(), t.values().sum::<usize>());
+        for (a, c) in t { let _ = write!(op, " {} {}", code(a), c); }
+    }
+    if done.is_none() {
+        run.line(&op, "panic");
+        run.fail("preflop-chain-panics", "Layer::grow(Street::Pref).save() on a synthetic flop lookup + metric", "three tables", "panic");
+        let _ = std::fs::remove_dir_all("pgcopy");
+        return;
+    }
+    // ---- read back
+    let tables = catch(AssertUnwindSafe(|| {
+        let labels = BTreeMap::<Isomorphism, Abstraction>::from(Lookup::load(Street::Pref));
+        let metric = Metric::load(Street::Pref).verif_entries();
+        let bytes = std::fs::read("pgcopy/transitions.preflop").expect("transitions.preflop");
+        let mut rows: Vec<(i64, i64, f32)> = vec![];
+        let mut at = 19;
+        loop {
+            let k = u16::from_be_bytes([bytes[at], bytes[at + 1]]);
+            at += 2;
+            if k == 0xFFFF { break; }
+            assert!(k == 3);
+            let f = |at: usize, len: usize| -> &[u8] { &bytes[at + 4..at + 4 + len] };
+            let prev = i64::from_be_bytes(f(at, 8).try_into().unwrap());
+            let next = i64::from_be_bytes(f(at + 12, 8).try_into().unwrap());
+            let dx = f32::from_be_bytes(f(at + 24, 4).try_into().unwrap());
+            at += 32;
+            rows.push((prev, next, dx));
+        }
+        (labels, metric, rows)
+    }));
+    let _ = std::fs::remove_dir_all("pgcopy");
+    let (labels, metric, rows) = match tables {
+        Some(t) => t,
+        None => { run.line(&op, "unreadable"); run.fail("preflop-chain-tables-unreadable", "pgcopy/{isomorphism,metric,transitions}.preflop", "three readable tables", "panic while reading"); return; }
+    };
+    let mut centroids = BTreeMap::<i64, BTreeMap<u128, f32>>::new();
+    for (prev, next, dx) in &rows { centroids.entry(*prev).or_default().insert(code(&Abstraction::from(*next)), *dx); }
+    // ---- correspondence line: per class, its label and the distribution stored under that label
+    let mut ans = String::new();
+    for iso in &classes {
+        match labels.get(iso) {
+            None => ans.push_str(" unlabelled"),
+            Some(l) => match centroids.get(&i64::from(*l)) {
+                None => { let _ = write!(ans, " {} missing", code(l)); }
+                Some(c) => { let _ = write!(ans, " {} {}", code(l), c.len()); for (k, v) in c { let _ = write!(ans, " {} {}", k, fl(*v)); } }
+            },
+        }
+    }
+    run.line(&op, &ans);
+    run.distinct(&op.len());
+    // ---- oracle
+    run.spec_checked += 1;
+    if labels.len() != n || centroids.len() != n {
+        run.fail("preflop-chain-table-size", "preflop layer", &format!("{n} labelled classes, {n} centroids"), &format!("{} / {}", labels.len(), centroids.len()));
+    }
+    let dist = |c: &BTreeMap<u128, f32>, t: &BTreeMap<Abstraction, usize>| -> f64 {
+        let m = t.values().sum::<usize>() as f64;
+        let mut keys: BTreeSet<u128> = c.keys().cloned().collect();
+        keys.extend(t.keys().map(code));
+        keys.iter().map(|k| {
+            let want = t.iter().find(|(a, _)| code(a) == *k).map_or(0.0, |(_, v)| *v as f64 / m);
+            (c.get(k).copied().unwrap_or(0.0) as f64 - want).abs()
+        }).sum()
+    };
+    let mut wrong = vec![];
+    let mut used = BTreeSet::new();
+    for (i, iso) in classes.iter().enumerate() {
+        run.spec_checked += 1;
+        let Some(l) = labels.get(iso) else { wrong.push((i, "no label".to_string())); continue; };
+        used.insert(i64::from(*l));
+        let Some(stored) = centroids.get(&i64::from(*l)) else { wrong.push((i, format!("label {l} has no centroid"))); continue; };
+        let own = dist(stored, &truth[i]);
+        let (nearest, least) = centroids.iter().map(|(k, c)| (*k, dist(c, &truth[i]))).min_by(|a, b| a.1.partial_cmp(&b.1).unwrap()).unwrap();
+        if own > 1e-5 || (distinct && nearest != i64::from(*l) && least + 1e-6 < own) {
+            wrong.push((i, format!("labelled {l}, whose centroid is {own:.5} (L1) from the class's histogram; centroid under {} is {least:.6} away", Abstraction::from(nearest))));
+        }
+    }
+    if let Some((i, why)) = wrong.first() {
+        run.fail("preflop-class-not-labelled-with-its-nearest-centroid",
+            &format!("Layer::grow(Pref).save() on synthetic flop lookup (8 buckets) + line metric: {} of {n} classes wrong; first: class {i} = {}", wrong.len(), classes[*i].0),
+            "the bucket whose stored centroid is the class's own histogram (distance 0)", why);
+    }
+    if used.len() != n {
+        run.fail("preflop-labels-not-one-bucket-per-class", "preflop lookup", &format!("{n} distinct buckets"), &format!("{}", used.len()));
+    }
+    // ---- metric: one entry per unordered pair, >= 0, max 1, and (sampled) the symmetrised distance of the right pair
+    run.spec_checked += 1;
+    let want_pairs = n * (n - 1) / 2;
+    let mx = metric.iter().map(|e| e.1).fold(0f32, f32::max);
+    if metric.len() != want_pairs || (mx - 1.0).abs() > 1e-6 || metric.iter().any(|e| !(e.1 >= 0.0)) {
+        run.fail("preflop-metric-shape", "metric.preflop", &format!("{want_pairs} entries in [0,1] with max 1"), &format!("{} entries, max {mx}", metric.len()));
+    }
+    let emap: BTreeMap<Pair, f32> = metric.iter().cloned().collect();
+    let hist = |t: &BTreeMap<Abstraction, usize>| { let mut h = Histogram::default(); for (a, c) in t { h.set(*a, *c); } h };
+    let mut reference: Option<(f64, f64)> = None;
+    for s in 0..150usize {
+        let (i, j) = ((s * 37 + 5) % n, (s * 101 + 11) % n);
+        if i == j { continue; }
+        let (hi, hj) = (hist(&truth[i]), hist(&truth[j]));
+        let raw = (ground_metric.emd(&hi, &hj) as f64 + ground_metric.emd(&hj, &hi) as f64) / 2.0;
+        let key = Pair::from((&Abstraction::from((Street::Pref, i)), &Abstraction::from((Street::Pref, j))));
+        run.spec_checked += 1;
+        match emap.get(&key) {
+            None => run.fail("preflop-metric-missing-pair", &format!("pair ({i},{j})"), "an entry", "missing"),
+            Some(e) => match reference {
+                None => if raw > 1e-3 && *e > 1e-3 { reference = Some((raw, *e as f64)); },
+                Some((r0, e0)) => if (*e as f64 * r0 - e0 * raw).abs() > 1e-4 * (e0 * raw).max(1e-3) {
+                    run.fail("preflop-metric-value-of-wrong-pair", &format!("metric.preflop entry of buckets ({i},{j})"), &format!("proportional to the symmetrised emd of classes {i},{j}: {}", raw * e0 / r0), &format!("{e}"));
+                },
+            },
+        }
+    }
+    run.count("preflop-layer-end-to-end");
 }
 
 fn main() {
@@ -724,6 +891,7 @@ fn main() {
     multistep_suite(&mut run, &mut rng, deep);
     populous_suite(&mut run, &mut rng, deep);
     projection_suite(&mut run, deep);
+    preflop_chain_suite(&mut run);
     run.rule = format!(
         "Lookup::projections on a complete synthetic flop lookup under an 8-thread pool, twice, every preflop point compared with the independently computed histogram of its class; populous layers (centroids beyond 65,536 and 131,072 samples, 3 steps, f64 oracle at every step) and density probes at masses around 2^16, 2^24, 2^32; multi-step runs on one thread (re-seeded and Lloyd, >= 5 steps, centroids of every step at the addresses of the step before, equal masses and support sizes) with the nearest-centroid oracle recomputed from scratch in f64 at every step; near-tie layers (point-mass point, point-mass centroid, spread centroid within 1 %); {} synthetic layers: Turn (points = equity histograms over the 101 river buckets, emd = Equity::variation, 1..150 centroids incl. 144), Flop and Pref (points over 24 learned abstractions with a line metric, emd = Sinkhorn, 1..16 centroids); 10..500 points with duplicated points, duplicated centroids (ties), an empty centroid (NaN distance), more centroids than street.k(); per layer every point's neighborhood, one next(), lookup() (Flop/Turn, zipped with the real IsomorphismIterator) and metric(); pair keys of the real cluster counts 169/128/144 exhaustively. distinct = distinct op lines",
         cases.len());
